@@ -167,7 +167,9 @@ def _expand_element_group(element: SpecOp) -> List[ElementType]:
                 new_elements.append(
                     SpecOp(
                         op=element.op,
-                        spec=group_element,
+                        # The normalization to DNF can share the same spec between several
+                        # and-groups and the further expansion modifies the spec
+                        spec=copy.deepcopy(group_element),
                     )
                 )
             new_elements.append(goto_end_element)
